@@ -174,6 +174,38 @@ func (c02) RunCase(c *core.Ctx) {
 			return
 		}
 	}
+	if c.Case%100 == 43 {
+		c.Eval(30)
+		if problem, _ := dNamedTypeTests(); problem != "" {
+			c.Violation("issues-differ|schemas-over-named-types", map[string]any{"observed": problem})
+			return
+		}
+	}
+	if c.Case%100 == 44 {
+		// a schema assembled from three operands: a key the second and third operand both define is the third's
+		a := z.Struct(z.Schema{"name": z.String().Required()})
+		b := z.Struct(z.Schema{"age": z.Int().GT(100), "role": z.String()})
+		d := z.Struct(z.Schema{"age": z.Int().LT(18), "role": z.String().Required()})
+		var dst struct {
+			Name, Role string
+			Age        int
+		}
+		m := a.Merge(b, d).Parse(map[string]any{"name": "n", "age": 50}, &dst)
+		c.Eval(1)
+		var got []string
+		for k, l := range m {
+			if k != "$first" {
+				for _, e := range l {
+					got = append(got, k+":"+e.Code)
+				}
+			}
+		}
+		sort.Strings(got)
+		if strings.Join(got, ",") != "age:lt,role:required" {
+			c.Violation("issues-differ|Parse|merged-schema", map[string]any{"schema": "{name: Required}.Merge({age: GT(100), role}, {age: LT(18), role: Required})", "input": "{name: n, age: 50}", "issues": got, "want": "age:lt, role:required"})
+			return
+		}
+	}
 	if c.Case%100 == 42 {
 		// a schema built statement by statement: every test declared on the object is run and reported
 		st := z.String()
